@@ -122,7 +122,7 @@ def main():
     used = set()
     for sh in data["shapes"]:
         UNIVERSE.update(sh["attrs"].keys())
-    UNIVERSE.update(["ID", "VT", "EVT", "TT", "ET", "M"])
+    UNIVERSE.update(["ID", "VT", "EVT", "TT", "ET", "M", "SchemaTypeExpr", "Nesting"])
     for sh in data["shapes"]:
         sid = sh["id"]
         attrs = dict(sh["attrs"])
@@ -132,6 +132,16 @@ def main():
         attrs["TT"] = short_type(attrs["Type"])
         attrs["ET"] = short_type(attrs["ElemType"])
         attrs["M"] = "M_" + attrs["ID"]
+        # the schema literal's Type expression as documented: a scalar type value, the configured
+        # constructor, or an empty literal of the type; lists and maps wrap the element's expression
+        def prim_expr():
+            if attrs.get("IsTypeScalar") == "true": return attrs["ET"]
+            if attrs.get("TypeConstructor"): return short_type(attrs["TypeConstructor"])
+            return attrs["ET"] + "{}"
+        if attrs["Kind"] == "Primitive": attrs["SchemaTypeExpr"] = prim_expr()
+        elif attrs["Kind"] in ("PrimitiveList", "PrimitiveMap"): attrs["SchemaTypeExpr"] = "%s{ElemType: %s}" % (attrs["TT"], prim_expr())
+        else: attrs["SchemaTypeExpr"] = "nil"
+        attrs["Nesting"] = {"Object": "Single", "ObjectList": "List", "ObjectMap": "Map"}.get(attrs["Kind"], "")
         body = sh["struct_def"] + "\n"
         funcs = {}
         for d, key, fname in (("CopyFrom", "copy_from", "Copy%sFromTerraform" % sid), ("CopyTo", "copy_to", "Copy%sToTerraform" % sid), ("Schema", "schema", "GenSchema%s" % sid)):
